@@ -306,9 +306,12 @@ where
         let (n_chains, dim) = (shape.dims[0], shape.dims[1]);
 
         // 1) Sample momenta: shape [n_chains, D]
-        let momentum_0 = Tensor::<B, 2>::random(
-            Shape::new([n_chains, dim]),
-            burn::tensor::Distribution::Normal(0., 1.),
+        let momentum_data: Vec<T> = (&mut self.rng)
+            .sample_iter(StandardNormal)
+            .take(n_chains * dim)
+            .collect();
+        let momentum_0 = Tensor::<B, 2>::from_data(
+            TensorData::new(momentum_data, [n_chains, dim]),
             &B::Device::default(),
         );
 
@@ -356,9 +359,8 @@ where
         for _ in 0..n_chains {
             uniform_data.push(self.rng.random::<T>());
         }
-        let uniform = Tensor::<B, 1>::random(
-            Shape::new([n_chains]),
-            burn::tensor::Distribution::Default,
+        let uniform = Tensor::<B, 1>::from_data(
+            TensorData::new(uniform_data, [n_chains]),
             &B::Device::default(),
         );
 
